@@ -3,6 +3,7 @@ package props
 import (
 	"fmt"
 	"math/rand"
+	"time"
 
 	"github.com/IBM/fluent-forward-go/fluent/protocol"
 
@@ -66,6 +67,27 @@ var historyAlphabet = []letter{
 		}
 		return o
 	}},
+	// a send that fails at one of the points a send can fail: the write, the peer's response
+	// (EOF, garbage, wrong chunk) or -- with a timeout configured -- the peer's silence
+	{"Sfail", func(r *rand.Rand, cf ccfg) cop {
+		m, enc, ch := smallMessage(r, cf, "c2")
+		o := cop{kind: "S", msg: m, enc: enc, chunk: ch, wfault: -1}
+		switch k := r.Intn(4); {
+		case k == 0 || !cf.ack:
+			o.wfault = r.Intn(len(enc))
+		case k == 1:
+			o.resp = nil // EOF instead of an ack
+		case k == 2:
+			o.resp = []byte{0x81, 0xa3, 'a', 'c'} // truncated, then EOF
+		default:
+			if cf.timeout > 0 {
+				o.silent = true
+			} else {
+				o.resp = ackBytes([]byte("other"))
+			}
+		}
+		return o
+	}},
 	{"W", func(r *rand.Rand, cf ccfg) cop {
 		return cop{kind: "W", raw: []byte{0x93, byte(r.Intn(128)), 0xc0}, wfault: -1}
 	}},
@@ -81,9 +103,7 @@ func historySweep(c *core.Ctx, sig string, alphabet []letter, exhaustLen, random
 		{key: []byte("k3y"), host: []byte("h"), ack: false},
 		{key: []byte("k3y"), host: []byte("h"), ack: true},
 		{key: nil, host: []byte("h"), ack: true},
-	}
-	for i := range cfgs {
-		cfgs[i].timeout = 0
+		{key: nil, host: []byte("h"), ack: true, timeout: 15 * time.Millisecond},
 	}
 	runSeq := func(cf ccfg, idx []int) {
 		ops := make([]cop, len(idx))
